@@ -93,7 +93,7 @@ theorem Tr.destroySockObj (s : St) (i : Nat) : Tr s (s.destroySockObj i) [] := b
   generalize hs1 : (if (s0.drv (s.sock i).drv).alive = true then s0.setDrv (s.sock i).drv ((s0.drv (s.sock i).drv).unregister i) else s0) = s1
   have e1 : s1.sock = s.sock ∧ s1.futs = s.futs ∧ s1.nfut = s.nfut ∧ s1.log = s.log := by
     subst hs1; split <;> exact e0
-  generalize hs2 : (if (s.sock i).sendQ.length > 0 ∧ ¬s1.poolAlive = true then s1.fail "send buffer returned to a destroyed pool" else s1) = s2
+  generalize hs2 : (if (s.sock i).sendQ.any (fun id => !s.echo id) = true ∧ ¬s1.poolAlive = true then s1.fail "send buffer returned to a destroyed pool" else s1) = s2
   have e2 : s2.sock = s.sock ∧ s2.futs = s.futs ∧ s2.nfut = s.nfut ∧ s2.log = s.log := by
     subst hs2; split <;> exact e1
   refine ⟨⟨((s.sock i).sendQ.map fun id => Ev.fut id .broken).reverse, ?_, hEvents_broken _⟩, ?_, ?_, ?_⟩
@@ -230,7 +230,7 @@ theorem Tr.step (s : St) (d : Nat) : ∃ Ht Hs, Tr s (s.step d) (Hs ++ Ht) ∧ (
 
 /-- operations that add no handler event and keep socket identities and the number of futures -/
 def plainOp : Op → Bool
-  | .mkSock .. | .send _ | .step _ => false
+  | .mkSock .. | .send _ | .echo _ | .step _ => false
   | _ => true
 
 theorem Tr.exec_plain (s : St) (op : Op) (hp : plainOp op = true) : Tr s (exec .fixed s op) [] := by
@@ -240,6 +240,7 @@ theorem Tr.exec_plain (s : St) (op : Op) (hp : plainOp op = true) : Tr s (exec .
   · cases op with
     | mkSock i k d a b c => cases hp
     | send i => cases hp
+    | echo i => cases hp
     | step d => cases hp
     | mkDriver d => simp only; split; exact Tr.fail _ _; exact Tr.setDrv _ _ _
     | peerSend i => exact Tr.setSock s i _ rfl rfl (fun h => h)
@@ -301,6 +302,54 @@ theorem wantSend_same (s : St) (i : Nat) : (St.wantSend .fixed s i).log = s.log 
   split
   · exact ⟨rfl, rfl, rfl, rfl⟩
   · split <;> exact ⟨rfl, rfl, rfl, rfl⟩
+
+theorem enqueue_facts (s : St) (i : Nat) (e : Bool) : (s.enqueue i e).log = s.log ∧
+    (∀ j, ((s.enqueue i e).sock j).present = (s.sock j).present ∧ ((s.enqueue i e).sock j).onDisc = (s.sock j).onDisc ∧
+      ((s.enqueue i e).sock j).alive = (s.sock j).alive) ∧
+    (s.enqueue i e).nfut = s.nfut + 1 ∧
+    (∀ id, (s.enqueue i e).futs id = if id = s.nfut then some (i, .pending) else s.futs id) := by
+  unfold St.enqueue
+  refine ⟨rfl, ?_, rfl, fun _ => rfl⟩
+  intro j
+  show ((St.setSock s i _).sock j).present = _ ∧ ((St.setSock s i _).sock j).onDisc = _ ∧ ((St.setSock s i _).sock j).alive = _
+  by_cases hj : j = i
+  · subst hj; simp
+  · rw [setSock_other _ _ hj]; exact ⟨rfl, rfl, rfl⟩
+
+/-- a legal echo: like a `Send` - a new pending future of that socket, nothing else the observer could see -/
+theorem exec_echo {s : St} (hub : s.ub = none) {i : Nat} (hl : legalOp s (.echo i) = true) :
+    (exec .fixed s (.echo i)).log = s.log ∧
+    (∀ j, ((exec .fixed s (.echo i)).sock j).present = (s.sock j).present ∧
+      ((exec .fixed s (.echo i)).sock j).onDisc = (s.sock j).onDisc ∧
+      ((exec .fixed s (.echo i)).sock j).alive = (s.sock j).alive) ∧
+    (exec .fixed s (.echo i)).nfut = s.nfut + 1 ∧
+    (∀ id, (exec .fixed s (.echo i)).futs id = if id = s.nfut then some (i, .pending) else s.futs id) := by
+  simp only [legalOp, Bool.and_eq_true, bne_iff_ne, ne_eq, decide_eq_true_eq] at hl
+  obtain ⟨⟨hal, _⟩, hheld⟩ := hl
+  have hne : ¬ (s.sock i).held = 0 := by omega
+  have hfacts : ∀ (k : Sock), k.present = (s.sock i).present → k.onDisc = (s.sock i).onDisc → k.alive = (s.sock i).alive →
+      ((s.setSock i k).enqueue i true).log = s.log ∧
+      (∀ j, (((s.setSock i k).enqueue i true).sock j).present = (s.sock j).present ∧
+        (((s.setSock i k).enqueue i true).sock j).onDisc = (s.sock j).onDisc ∧
+        (((s.setSock i k).enqueue i true).sock j).alive = (s.sock j).alive) ∧
+      ((s.setSock i k).enqueue i true).nfut = s.nfut + 1 ∧
+      (∀ id, ((s.setSock i k).enqueue i true).futs id = if id = s.nfut then some (i, .pending) else s.futs id) := by
+    intro k hp ho ha
+    obtain ⟨e1, e2, e3, e4⟩ := enqueue_facts (s.setSock i k) i true
+    refine ⟨e1, ?_, e3, e4⟩
+    intro j
+    obtain ⟨a, b, c⟩ := e2 j
+    rw [a, b, c]
+    by_cases hj : j = i
+    · subst hj; simp only [setSock_same]; exact ⟨hp, ho, ha⟩
+    · rw [setSock_other _ _ hj]; exact ⟨rfl, rfl, rfl⟩
+  unfold Lifecycle.exec
+  simp only [hub, Option.isSome_none, Bool.false_eq_true, ↓reduceIte, hal, not_true_eq_false, hne]
+  split
+  · obtain ⟨w1, w2, w3, w4⟩ := wantSend_same ((s.setSock i _).enqueue i true) i
+    rw [w1, w2, w3, w4]
+    exact hfacts _ rfl rfl (by simp [hal])
+  · exact hfacts _ rfl rfl (by simp [hal])
 
 /-- a legal `Send`: a new pending future of that socket, nothing else the observer could see -/
 theorem exec_send {s : St} (hub : s.ub = none) {i : Nat} (hl : legalOp s (.send i) = true) :
@@ -459,7 +508,7 @@ theorem LogInv.destroySockObj {s : St} (h : LogInv s) (hq : QOK s) (i : Nat) : L
   have e0 : s0.futs = s.futs ∧ s0.log = s.log := by subst hs0; split <;> exact ⟨rfl, rfl⟩
   generalize hs1 : (if (s0.drv (s.sock i).drv).alive = true then s0.setDrv (s.sock i).drv ((s0.drv (s.sock i).drv).unregister i) else s0) = s1
   have e1 : s1.futs = s.futs ∧ s1.log = s.log := by subst hs1; split <;> exact e0
-  generalize hs2 : (if (s.sock i).sendQ.length > 0 ∧ ¬s1.poolAlive = true then s1.fail "send buffer returned to a destroyed pool" else s1) = s2
+  generalize hs2 : (if (s.sock i).sendQ.any (fun id => !s.echo id) = true ∧ ¬s1.poolAlive = true then s1.fail "send buffer returned to a destroyed pool" else s1) = s2
   have e2 : s2.futs = s.futs ∧ s2.log = s.log := by subst hs2; split <;> exact e1
   apply h.breakQ (s.sock i).sendQ (fun id hid => ⟨i, hq.1 i id hid⟩) (hq.2 i)
   · intro j
@@ -564,6 +613,22 @@ theorem LogInv.step {s : St} (h : LogInv s) (hq : QOK s) (d : Nat) : LogInv (s.s
   · exact h1.1.onReadable h1.2 _
   · exact h1.1.onWritable h1.2 _
 
+theorem LogInv.enqueue {s : St} (h : LogInv s) (hnf : ∀ j, s.futs j ≠ none → j < s.nfut) (i : Nat) (e : Bool) :
+    LogInv (s.enqueue i e) := by
+  unfold St.enqueue
+  refine ⟨?_, ?_, h.nodup⟩
+  · intro id st hm
+    obtain ⟨hne, x, hx⟩ := h.sound id st hm
+    refine ⟨hne, x, ?_⟩
+    show (if id = s.nfut then some (i, Fut.pending) else s.futs id) = some (x, st)
+    have hlt : id < s.nfut := hnf id (by rw [hx]; simp)
+    rw [if_neg (by omega)]; exact hx
+  · intro id x st hfu hp
+    have hfu' : (if id = s.nfut then some (i, Fut.pending) else s.futs id) = some (x, st) := hfu
+    split at hfu'
+    · cases hfu'; exact absurd rfl hp
+    · exact h.complete id x st hfu' hp
+
 theorem LogInv.exec {s : St} (h : LogInv s) (hL : LInv s) (op : Op) : LogInv (exec .fixed s op) := by
   have hq := QOK.of_LInv hL
   unfold Lifecycle.exec
@@ -578,26 +643,25 @@ theorem LogInv.exec {s : St} (h : LogInv s) (hL : LInv s) (op : Op) : LogInv (ex
       · split <;> exact h.same rfl rfl
     | send i =>
       simp only
-      have henq : LogInv (s.enqueue i) := by
-        unfold St.enqueue
-        refine ⟨?_, ?_, h.nodup⟩
-        · intro id st hm
-          obtain ⟨hne, x, hx⟩ := h.sound id st hm
-          refine ⟨hne, x, ?_⟩
-          show (if id = s.nfut then some (i, Fut.pending) else s.futs id) = some (x, st)
-          have hlt : id < s.nfut := hL.nf id (by rw [hx]; simp)
-          rw [if_neg (by omega)]; exact hx
-        · intro id x st hfu hp
-          have hfu' : (if id = s.nfut then some (i, Fut.pending) else s.futs id) = some (x, st) := hfu
-          split at hfu'
-          · cases hfu'; exact absurd rfl hp
-          · exact h.complete id x st hfu' hp
+      have henq : LogInv (s.enqueue i) := h.enqueue hL.nf i false
       split
       · exact h.same rfl rfl
       · split
         · exact h.same rfl rfl
         · split
           · obtain ⟨w1, _, w3, _⟩ := wantSend_same (s.enqueue i) i
+            exact henq.same w1 w3
+          · exact henq
+    | echo i =>
+      simp only
+      have henq : LogInv ((s.setSock i { (s.sock i) with held := (s.sock i).held - 1 }).enqueue i true) :=
+        LogInv.enqueue (s := s.setSock i { (s.sock i) with held := (s.sock i).held - 1 }) (h.same rfl rfl) (fun j hj => hL.nf j hj) i true
+      split
+      · exact h.same rfl rfl
+      · split
+        · exact h.same rfl rfl
+        · split
+          · obtain ⟨w1, _, w3, _⟩ := wantSend_same ((s.setSock i { (s.sock i) with held := (s.sock i).held - 1 }).enqueue i true) i
             exact henq.same w1 w3
           · exact henq
     | step d => simp only; split; exact h.same rfl rfl; exact h.step hq d
@@ -899,7 +963,7 @@ theorem end_legal {s : St} (hL : LInv s) (hF : FInv s) {socks todos drvs : List 
       unfold St.poolBusy
       rw [List.length_eq_zero_iff, List.filter_eq_nil_iff]
       intro j _
-      rw [hBCpend j]; simp
+      simp [St.isPoolPending, hBCpend j]
     · rfl
   · intro op hop
     rcases List.mem_append.mp hop with h | h
@@ -929,7 +993,7 @@ theorem end_legal {s : St} (hL : LInv s) (hF : FInv s) {socks todos drvs : List 
         unfold St.poolBusy
         rw [List.length_eq_zero_iff, List.filter_eq_nil_iff]
         intro j _
-        rw [hBCpend j]; simp
+        simp [St.isPoolPending, hBCpend j]
       have hFP := hFBC.exec .fixed .destroyPool
       have htr := Tr.exec_plain (run .fixed (run .fixed s A) (B ++ C)) .destroyPool rfl
       cases hp : (exec .fixed (run .fixed (run .fixed s A) (B ++ C)) .destroyPool).isPending j with
